@@ -380,6 +380,15 @@ func (env *specEnv) loadAlloc(al *ssa.Alloc) Val {
 	if v, ok := env.st.locals[al]; ok {
 		return v
 	}
+	// not live in this state (e.g. inside old(...), which is the state at function entry, before the
+	// parameter copies exist): a parameter's copy stands for the parameter itself
+	for _, p := range a.fn.Params {
+		if p.Name() == al.Comment {
+			if v, ok := a.vals[p]; ok {
+				return v
+			}
+		}
+	}
 	return a.e.freshVal("undef."+al.Comment, al.Type().(*types.Pointer).Elem(), env.st)
 }
 
@@ -713,13 +722,19 @@ func (env *specEnv) quant(x *Expr) (Val, error) {
 	if err != nil {
 		return Val{}, err
 	}
-	wf := and(cp.facts...)
-	var inner Term
-	if x.Op == "forall" {
-		inner = implies(wf, body)
-	} else {
-		inner = and(wf, body)
+	// Type well-formedness facts about terms under the binder (loaded references are allocated, slice headers are
+	// sane, ...) hold for every value of the bound variables: they are asserted as separate universally quantified
+	// facts rather than as antecedents, which would make an assumed quantified formula unusable whenever the solver
+	// cannot re-derive them.
+	if wf := and(cp.facts...); wf.S != "true" {
+		q := Term{fmt.Sprintf("(forall (%s) %s)", strings.Join(decls, " "), wf.S), SBool}
+		if save != nil {
+			save.facts = append(save.facts, q) // nested: the enclosing binder closes over its own variables
+		} else {
+			log.assertGlobal(q)
+		}
 	}
+	inner := body
 	pat := ""
 	if trig := env.pickTrigger(x, n); trig != "" {
 		pat = trig
@@ -1111,6 +1126,26 @@ func (env *specEnv) applySpecFunc(sf *SpecFunc, args []Val) (Val, error) {
 			sorts = append(sorts, t.Sort)
 		}
 	}
+	// heap families the function reads are explicit arguments
+	var keyParts []string
+	for i, v := range args {
+		if pt, err := env.parseType(sf.Params[i].Type); err == nil {
+			if ls := e.layout(pt); len(ls) == 1 && ls[0].Sort == SInt && ls[0].Kind == lkScalar {
+				continue // integer parameters are not part of the axiom-instantiation key
+			}
+		}
+		for _, t := range e.flat(v) {
+			keyParts = append(keyParts, t.S)
+		}
+	}
+	for _, r := range sf.Reads {
+		for _, h := range env.readsHeaps(r) {
+			t := e.heapGet(env.st, h, e.cur.heapSorts[h])
+			ats = append(ats, t)
+			sorts = append(sorts, t.Sort)
+			keyParts = append(keyParts, t.S)
+		}
+	}
 	ls := e.layout(rt)
 	ts := make([]Term, len(ls))
 	for i, l := range ls {
@@ -1121,8 +1156,56 @@ func (env *specEnv) applySpecFunc(sf *SpecFunc, args []Val) (Val, error) {
 		e.cur.log.declFun(fname, sorts, l.Sort)
 		ts[i] = app(l.Sort, fname, ats...)
 	}
-	e.useSpecAxioms(sf)
+	// instantiate the axioms for these arguments (once per argument/heap combination; not under binders)
+	key := "specax:" + sf.Name + ":" + strings.Join(keyParts, ",")
+	bound := false
+	for _, t := range ats {
+		if strings.Contains(t.S, "?") {
+			bound = true
+		}
+	}
+	if !bound && !e.cur.ufs[key] && len(sf.Axioms) > 0 {
+		e.cur.ufs[key] = true
+		n := &specEnv{}
+		*n = *env
+		n.vars = map[string]Val{}
+		n.qdepth = 0
+		for i, p := range sf.Params {
+			n.vars[p.Name] = args[i]
+		}
+		save := e.cur.log.capture
+		e.cur.log.capture = nil
+		for _, ax := range sf.Axioms {
+			t, err := n.evalBool(ax.E)
+			if err != nil {
+				e.cur.anchorErrs = append(e.cur.anchorErrs, fmt.Sprintf("spec func %s axiom %q: %v", sf.Name, ax.Text, err))
+				continue
+			}
+			e.cur.log.assertGlobal(t)
+		}
+		e.cur.log.capture = save
+		e.cur.externsUsed["spec-function axioms: "+sf.Name] = true
+	}
 	return Val{Typ: rt, T: ts}, nil
+}
+
+// readsHeaps: "pkg.Type.field" (object heap families) or "elems(pkg.Type)" / "elems(*pkg.Type)" (slice elements)
+func (env *specEnv) readsHeaps(pat string) []string {
+	e := env.e
+	if strings.HasPrefix(pat, "elems(") && strings.HasSuffix(pat, ")") {
+		t, err := env.parseType(pat[6 : len(pat)-1])
+		if err != nil {
+			return nil
+		}
+		var out []string
+		for _, l := range e.layout(t) {
+			name := elemHeapName(t, l.Path)
+			e.cur.heapSorts[name] = arrSort(SInt, arrSort(SInt, l.Sort))
+			out = append(out, name)
+		}
+		return out
+	}
+	return e.heapsMatching(pat)
 }
 
 func firstTerm(v Val) string {
@@ -1130,25 +1213,6 @@ func firstTerm(v Val) string {
 		return v.T[0].S
 	}
 	return ""
-}
-
-// useSpecAxioms asserts the axioms attached to an uninterpreted spec function (once per verified function).
-func (e *Engine) useSpecAxioms(sf *SpecFunc) {
-	key := "specax:" + sf.Name
-	if e.cur.ufs[key] {
-		return
-	}
-	e.cur.ufs[key] = true
-	env := e.newEnv(e.cur.topAct, e.cur.topAct.entry)
-	for _, ax := range sf.Axioms {
-		t, err := env.evalBool(ax.E)
-		if err != nil {
-			e.cur.anchorErrs = append(e.cur.anchorErrs, fmt.Sprintf("spec func %s axiom %q: %v", sf.Name, ax.Text, err))
-			continue
-		}
-		e.cur.log.assertGlobal(t)
-		e.cur.externsUsed["axiom:"+sf.Name+":"+ax.Label] = true
-	}
 }
 
 // havocTarget: modifies-clause targets: x.f, *x, x[i], all(pkg.Type.field)
